@@ -36,6 +36,10 @@ type MathParagraph struct {
 
 // MarshalXML 自定义序列化
 func (mp *MathParagraph) MarshalXML(e *xml.Encoder, start xml.StartElement) error {
+	// 作为 body 的元素直接编码时，编码器给出的起始标签是类型名 MathParagraph，
+	// 这里必须写成 w:p，否则主文档中会出现非法元素
+	start.Name = xml.Name{Local: "w:p"}
+
 	// 开始段落元素
 	if err := e.EncodeToken(start); err != nil {
 		return err
